@@ -62,3 +62,173 @@ def wide(src: str, seed: int) -> str:
     except (SyntaxError, ValueError):
         return src
     return out if a == b else src
+
+
+# ----------------------------------------------------------------------------------------------------------------------
+# keyword adjacency: every keyword followed directly by an opener / quote / tab / line continuation instead of a blank,
+# and identifiers that begin with keywords
+
+_KW_PREFIX = ('elif_', 'elif_', 'else_', 'if', 'not', 'import_', 'async_', 'for', 'in_', 'is', 'as', 'or', 'and', 'def',
+              'elif', 'else', 'except_', 'finally_', 'case', 'match', 'with', 'while_', 'try_', 'lambda_', 'yield_')
+_KWS = set(keyword.kwlist) - {'True', 'False', 'None'} | {'match', 'case'}
+
+
+def _shape(src):
+    try:
+        return [type(n).__name__ for n in ast.walk(ast.parse(src))]
+    except (SyntaxError, ValueError):
+        return None
+
+
+def kwadj(src: str, seed: int) -> str:
+    rng = random.Random(seed * 7243 + 11)
+    shape0 = _shape(src)
+    if shape0 is None:
+        return src
+    # 1. identifiers that begin with keywords (lexical renaming, consistent per identifier)
+    try:
+        toks = list(tokenize.generate_tokens(io.StringIO(src).readline))
+    except (tokenize.TokenError, IndentationError, SyntaxError):
+        return src
+    names = {}
+    edits = []
+    fdepth = 0
+    for t in toks:
+        if t.type == getattr(tokenize, 'FSTRING_START', -1):
+            fdepth += 1
+        elif t.type == getattr(tokenize, 'FSTRING_END', -2):
+            fdepth -= 1
+        if fdepth or t.type != tokenize.NAME or t.string in _KWS or keyword.iskeyword(t.string) \
+                or t.string in _SOFT or t.string in _KEEP or t.string.startswith('__'):
+            continue
+        if t.string not in names:
+            names[t.string] = (_KW_PREFIX[rng.randrange(len(_KW_PREFIX))] + t.string) if rng.random() < 0.7 else t.string
+        if names[t.string] != t.string:
+            edits.append((t.start[0], t.start[1], t.end[1], names[t.string]))
+    lines = src.split('\n')
+    for row, c0, c1, new in sorted(edits, reverse=True):
+        lines[row - 1] = lines[row - 1][:c0] + new + lines[row - 1][c1:]
+    cur = '\n'.join(lines)
+    if _shape(cur) != shape0:
+        cur = src
+    # 2. keyword adjacency, one spot at a time (each accepted only if the text still denotes a tree of the same shape)
+    try:
+        toks = list(tokenize.generate_tokens(io.StringIO(cur).readline))
+    except (tokenize.TokenError, IndentationError, SyntaxError):
+        return cur
+    spots = []
+    fdepth = 0
+    for a, b in zip(toks, toks[1:]):
+        if a.type == getattr(tokenize, 'FSTRING_START', -1):
+            fdepth += 1
+        elif a.type == getattr(tokenize, 'FSTRING_END', -2):
+            fdepth -= 1
+        if fdepth or a.type != tokenize.NAME or a.string not in _KWS or a.end[0] != b.start[0] or a.end[1] >= b.start[1]:
+            continue
+        if b.type in (tokenize.COMMENT, tokenize.NL, tokenize.NEWLINE):
+            continue  # only between a keyword and the code token that follows it
+        opener = (b.type == tokenize.OP and b.string in '([{') or b.type == tokenize.STRING
+        spots.append((a.end[0], a.end[1], b.start[1], opener))
+    # ... and a closer ( `)` `]` `}` or a string) followed by a keyword: `(a)if c else d`, `[x]for x in y`, `'s'in t`
+    for a, b in zip(toks, toks[1:]):
+        if b.type == tokenize.NAME and b.string in _KWS and a.end[0] == b.start[0] and a.end[1] < b.start[1] and \
+                ((a.type == tokenize.OP and a.string in ')]}') or a.type == tokenize.STRING):
+            spots.append((a.end[0], a.end[1], b.start[1], True))
+    lines = cur.split('\n')
+    for ln, c0, c1, opener in sorted(spots, reverse=True):
+        text = lines[ln - 1]
+        if text[c0:c1].strip() != '':
+            continue
+        r = rng.random()
+        if opener:
+            rep = '' if r < 0.85 else '\t'
+        else:
+            rep = '\t' if r < 0.55 else (' \\\n' + ' ' * (len(text) - len(text.lstrip()) + 6) if r < 0.7 else None)
+        if rep is None:
+            continue
+        trial = lines[:]
+        new = text[:c0] + rep + text[c1:]
+        trial[ln - 1:ln] = new.split('\n')
+        if _shape('\n'.join(trial)) == shape0:
+            lines = trial
+    return '\n'.join(lines)
+
+
+# ----------------------------------------------------------------------------------------------------------------------
+# redundant grouping parentheses whose content is broken over lines: `a + b` -> `(a +\n      b)`, `a.b` -> `(a\n .b)`
+
+def _dump(src):
+    try:
+        return ast.dump(ast.parse(src))
+    except (SyntaxError, ValueError, RecursionError):
+        return None
+
+
+def _break_at(seg: str, kind: str, indent: str):
+    """`seg` (one line) with a line break at its first depth-0 binary operator (after it) / last depth-0 dot (before)."""
+    try:
+        toks = list(tokenize.generate_tokens(io.StringIO(seg).readline))
+    except (tokenize.TokenError, IndentationError, SyntaxError):
+        return None
+    depth = 0
+    cut = None
+    for k, t in enumerate(toks):
+        if t.type == tokenize.OP and t.string in '([{':
+            depth += 1
+        elif t.type == tokenize.OP and t.string in ')]}':
+            depth -= 1
+        elif depth == 0 and k > 0:
+            if kind == 'attr':
+                if t.type == tokenize.OP and t.string == '.':
+                    cut = ('before', t.start[1])
+            elif cut is None and ((t.type == tokenize.OP and t.string not in ('.', ',', ':', '=', '~'))
+                                  or (t.type == tokenize.NAME and t.string in ('and', 'or', 'in', 'is'))):
+                nxt = toks[k + 1] if k + 1 < len(toks) else None
+                if nxt is not None and nxt.type == tokenize.NAME and nxt.string in ('not', 'in'):
+                    continue  # `is not` / `not in`: break after the second word
+                cut = ('after', t.end[1])
+    if cut is None:
+        return None
+    pos = cut[1]
+    return seg[:pos].rstrip() + '\n' + indent + seg[pos:].lstrip()
+
+
+def wrapbreak(src: str, seed: int, p: float = 0.8) -> str:
+    rng = random.Random(seed * 1597 + 3)
+    d0 = _dump(src)
+    if d0 is None:
+        return src
+    tree = ast.parse(src)
+    cands = []
+    in_pattern = {id(x) for pt in ast.walk(tree) if isinstance(pt, ast.pattern) for x in ast.walk(pt)}
+    for n in ast.walk(tree):  # (parentheses inside a match pattern are group *patterns*, not expression parentheses)
+        if id(n) in in_pattern:
+            continue
+        if isinstance(n, (ast.BinOp, ast.BoolOp, ast.Compare, ast.Attribute)) and n.lineno == n.end_lineno \
+                and isinstance(getattr(n, 'ctx', ast.Load()), ast.Load):
+            cands.append(n)
+    cands.sort(key=lambda n: (n.lineno, n.col_offset, -n.end_col_offset), reverse=True)
+    lines = src.split('\n')
+    done = []  # (line, c0, c1) regions already rewritten: skip anything overlapping them
+    for n in cands:
+        if rng.random() > p:
+            continue
+        ln = n.lineno
+        text = lines[ln - 1]
+        if '\n' in text or not text.isascii():
+            continue
+        c0, c1 = n.col_offset, n.end_col_offset
+        if any(l == ln and not (c1 <= a or c0 >= b) for l, a, b in done):
+            continue
+        seg = text[c0:c1]
+        new = _break_at(seg, 'attr' if isinstance(n, ast.Attribute) else 'op', ' ' * (c0 + 1))
+        if new is None:
+            continue
+        trial = lines[:]
+        trial[ln - 1] = text[:c0] + '(' + new + ')' + text[c1:]
+        flat = '\n'.join(trial)
+        if _dump(flat) == d0:
+            lines = flat.split('\n')
+            # line numbers below shift by one: candidates are processed bottom-up, so only this line's regions matter
+            done = [(l, a, b) for l, a, b in done if l != ln] + [(ln, 0, 10 ** 9)]
+    return '\n'.join(lines)
